@@ -160,12 +160,14 @@ def klassOf (s : String) : Except String Klass :=
   | "function" => pure .function
   | "callback" => pure .callback
   | "vfunction" => pure .vfunction
+  | "signal" => pure .signal
   | _ => throw s!"unknown klass {s}"
 
 def klassStr : Klass → String
   | .function => "function"
   | .callback => "callback"
   | .vfunction => "vfunction"
+  | .signal => "signal"
 
 def callableOf (j : Json) : Except String Callable := do
   let ps ← (← j.getObjVal? "params").getArr?
@@ -182,7 +184,10 @@ def callableOf (j : Json) : Except String Callable := do
          syncFunc := (← optStr j "sync_func"), asyncFunc := (← optStr j "async_func"), symbol := (← optStr j "symbol"),
          shadowedBy := (← optStr j "shadowed_by"), shadows := (← optStr j "shadows"), movedTo := (← optStr j "moved_to"),
          setProperty := (← optStr j "set_property"), getProperty := (← optStr j "get_property"),
-         invoker := (← optStr j "invoker"), ctype := (← optStr j "ctype") }
+         invoker := (← optStr j "invoker"), ctype := (← optStr j "ctype"), when := (← optStr j "when"),
+         noRecurse := (← boolD j "no_recurse" false), detailed := (← boolD j "detailed" false),
+         action := (← boolD j "action" false), noHooks := (← boolD j "no_hooks" false),
+         emitter := (← optStr j "emitter") }
 
 def callableJson (c : Callable) : Json :=
   Json.mkObj ([("klass", Json.str (klassStr c.klass)), ("tag", Json.str c.tag), ("name", jstr c.name),
@@ -193,7 +198,9 @@ def callableJson (c : Callable) : Json :=
     ("finish_func", jo c.finishFunc), ("sync_func", jo c.syncFunc), ("async_func", jo c.asyncFunc),
     ("symbol", jo c.symbol), ("shadowed_by", jo c.shadowedBy), ("shadows", jo c.shadows), ("moved_to", jo c.movedTo),
     ("set_property", jo c.setProperty), ("get_property", jo c.getProperty), ("invoker", jo c.invoker),
-    ("ctype", jo c.ctype)] ++ docsJson c.docs)
+    ("ctype", jo c.ctype), ("when", jo c.when), ("no_recurse", Json.bool c.noRecurse),
+    ("detailed", Json.bool c.detailed), ("action", Json.bool c.action), ("no_hooks", Json.bool c.noHooks),
+    ("emitter", jo c.emitter)] ++ docsJson c.docs)
 
 def memberOf (j : Json) : Except String Member := do
   let b ← j.getObjVal? "body"
